@@ -60,4 +60,15 @@ pub uninterp spec fn ty_prim_name(t: Tok) -> Seq<char>;
 // debug_assert!(false, ..): a debug-build panic, so an obligation
 pub fn debug_assert_stub(b: bool) requires b {}
 
+// ---- the Complex arm of <Type as TryToRustTy>::try_to_rust_ty
+#[verifier::external_body] pub struct Type { _p: core::marker::PhantomData<()> }
+impl Type {
+    pub uninterp spec fn s_layout(&self, ctx: &BindgenContext) -> Option<Layout>;
+    #[verifier::external_body] pub fn layout(&self, ctx: &BindgenContext) -> (r: Option<Layout>) ensures r == self.s_layout(ctx) { unimplemented!() }
+}
+impl BindgenContext { #[verifier::external_body] pub fn generated_bindgen_complex(&self) { unimplemented!() } }
+#[verifier::external_body] pub struct CgError { _p: core::marker::PhantomData<()> }
+// `__BindgenComplex<T>` / `root::__BindgenComplex<T>`: #[repr(C)] struct { re: T, im: T } (Rust reference, repr(C) structs)
+#[verifier::external_body] pub fn ty_complex_of(rooted: bool, t: &Tok) -> (r: Tok) ensures ty_size(r) == 2 * ty_size(*t), ty_align(r) == ty_align(*t) { unimplemented!() }
+
 } // verus!
